@@ -419,6 +419,67 @@ def _parse_cvc5_model(out):
 
 
 def discharge_one(job):
+    """job -> result dict, with a hard deadline: the query is solved in a forked child that is killed when it does not answer
+    (z3's sequence solver has been seen to ignore its own time-out and spin in theory_seq::solve_eqs for half an hour); a killed
+    query is `unknown`, i.e. undecided, never a violation"""
+    import pickle
+    import select
+    import signal
+    hard_s = 8.0 * job.get('timeout_ms', 10000) / 1000.0 + 60.0
+    try:
+        rfd, wfd = os.pipe()
+        pid = os.fork()
+    except OSError:
+        return _discharge_one_inner(job)
+    if pid == 0:
+        code = 0
+        try:
+            os.close(rfd)
+            data = pickle.dumps(_discharge_one_inner(job))
+            with os.fdopen(wfd, 'wb') as f:
+                f.write(data)
+        except BaseException:
+            code = 1
+        finally:
+            os._exit(code)
+    os.close(wfd)
+    t0 = time.time()
+    chunks, eof = [], False
+    try:
+        while True:
+            left = t0 + hard_s - time.time()
+            if left <= 0:
+                break
+            ready, _, _ = select.select([rfd], [], [], left)
+            if not ready:
+                break
+            b = os.read(rfd, 1 << 20)
+            if not b:
+                eof = True
+                break
+            chunks.append(b)
+    finally:
+        os.close(rfd)
+        if not eof:
+            try:
+                os.kill(pid, signal.SIGKILL)
+            except OSError:
+                pass
+        try:
+            os.waitpid(pid, 0)
+        except OSError:
+            pass
+    if eof and chunks:
+        try:
+            return pickle.loads(b''.join(chunks))
+        except Exception:
+            pass
+    return {'id': job['id'], 'status': 'unknown', 'solver': None, 'time_s': round(time.time() - t0, 1), 'model': None,
+            'tried': [('hard-deadline', 'unknown(solver process did not answer within %.0f s and was killed)' % hard_s if not eof
+                       else 'unknown(solver process died)', round(time.time() - t0, 1))]}
+
+
+def _discharge_one_inner(job):
     """job: dict(id, smt2, expect_sat, timeout_ms, confirm) -> result dict"""
     smt2 = job['smt2']
     timeout_ms = job.get('timeout_ms', 10000)
